@@ -75,6 +75,12 @@ func c02CheckStep(prefix string, r *v1beta1.Rollout, pre, post *v1beta1.CommonSt
 		// (the clean-up a step without traffic runs first is stubbed here; its own wake-up comes from the grace
 		// wrapper inside the real manager, C07.grace.retryComesWithAPositiveWait)
 		cleanupPending := calls.count(stubFinalisingTrafficRouting) > 0
+		if done, failed, called := calls.last(stubFinalisingTrafficRouting); called && !failed && !done && len(calls.names) == 1 {
+			// the clean-up in front of a step without traffic is not finished: nothing else happens in this
+			// reconcile, and the wake-up lies in the future (the remaining grace time counted from now)
+			verifrt.Cover("cleanup-wait")
+			verifrt.Assert(recheck != nil && recheck.After(vEntry), "C07.step.cleanupWaitHasAWakeUpInTheFuture")
+		}
 		if preS == v1beta1.CanaryStepStateTrafficRouting && !cleanupPending && calls.count(stubDoTrafficRouting) > 0 {
 			verifrt.Assert(recheck != nil && recheck.After(time.Now()), "C07.step.trafficRoutingWaitHasAWakeUp")
 		}
@@ -185,6 +191,7 @@ func c02Canary(state int) {
 	m := vCanaryManager(cli)
 	pre := r.Status.CanaryStatus.CommonStatus
 	// the status cursor the controller itself maintains: nextStepIndex may be anything a user can patch in
+	vEntry = time.Now()
 	err := m.runCanary(c)
 	post := c.NewStatus.CanaryStatus.CommonStatus
 	c02CheckStep("C02.canary", r, &pre, &post, r.Spec.Strategy.Canary.Steps, calls, br, err, r.Spec.Strategy.HasTrafficRoutings(), true, int(c.Workload.Replicas), c.RecheckTime)
@@ -216,6 +223,7 @@ func c02BlueGreen(state int) {
 	vStubRunBatchRelease(calls, br)
 	m := vBlueGreenManager(cli)
 	pre := r.Status.BlueGreenStatus.CommonStatus
+	vEntry = time.Now()
 	err := m.runCanary(c)
 	post := c.NewStatus.BlueGreenStatus.CommonStatus
 	c02CheckStep("C02.bluegreen", r, &pre, &post, r.Spec.Strategy.BlueGreen.Steps, calls, br, err, r.Spec.Strategy.HasTrafficRoutings(), false, int(c.Workload.Replicas), c.RecheckTime)
@@ -370,3 +378,8 @@ func VerifC02_InitializingRecordsTheRevisionBeingReleased() {
 		verifrt.Assert(recheck != nil, "C02.initializing.pendingComesWithAWakeUp")
 	}
 }
+
+// the clean-up a step without traffic runs first (canary Service, routes of the previous step) waits for grace
+// periods too: C07.step.cleanupWaitHasAWakeUpInTheFuture of the same relation, from the Init and Upgrade sub-states
+func VerifC07_CanaryCleanupWaitHasAWakeUp()    { c02Canary(0) }
+func VerifC07_BlueGreenCleanupWaitHasAWakeUp() { c02BlueGreen(0) }
